@@ -273,6 +273,15 @@ class State:
         vs = set(vars_)
         for v in vars_:
             if self.cons.mentions(v):
+                leaf = self.leaf(v)
+                if leaf is not None and (leaf.lo > -(1 << 62) or leaf.hi < (1 << 62)):
+                    # hand the variable's bounds to what it is equated with before it disappears
+                    for e in list(self.cons.eq):
+                        if v in e.terms and len(e.terms) == 2:
+                            try:
+                                self.propagate(seed=e, eq=True, rounds=1)
+                            except Infeasible:
+                                raise
                 # rewrite definitions through an equality before the variable disappears
                 if self.defs:
                     self._rewrite_defs(v, vs)
@@ -287,14 +296,25 @@ class State:
             for k in dead:
                 del self.defs[k]
 
+    def prune(self):
+        """drop inequalities that the intervals already imply, unless they are small difference constraints
+        (x - y + k <= 0 with small k), which are worth keeping explicit for later joins"""
+        for c in list(self.cons.le):
+            n = len(c.terms)
+            if n <= 1:
+                continue
+            hi = sup(c, self.bounds_of)
+            if hi is None or hi > 0:
+                continue
+            coefs = list(c.terms.values())
+            small_diff = n == 2 and sorted(coefs) == [-1, 1] and abs(c.const) <= (1 << 20)
+            if not small_diff:
+                self.cons.le.discard(c)
+
     def absorb_unary(self):
         """single-variable constraints produced by elimination become interval bounds;
         constraints implied by the intervals are dropped"""
-        for c in list(self.cons.le):
-            if len(c.terms) > 1:
-                hi = sup(c, self.bounds_of)
-                if hi is not None and hi <= -(1 << 40):
-                    self.cons.le.discard(c)
+        self.prune()
         un = [c for c in self.cons.le if len(c.terms) == 1]
         ue = [c for c in self.cons.eq if len(c.terms) == 1]
         if not un and not ue:
@@ -322,6 +342,7 @@ class State:
         for (var, value), fs in self.guards.items():
             if under(var):
                 continue
+            fs = _eliminate_in_facts(fs, under)
             keep = []
             for f in fs:
                 if f[0] in ("iv", "var"):
@@ -368,6 +389,11 @@ class State:
                     if sv is not None and sv[1] == 1:
                         # v = w + k  ->  w in [lo-k, hi-k]
                         out.append(("iv", sv[0], f[2] - sv[2], f[3] - sv[2]))
+                    elif not repl.is_const():
+                        if f[2] > -(1 << 62):
+                            out.append(("le", LinForm.constant(f[2]) - repl))
+                        if f[3] < (1 << 62):
+                            out.append(("le", repl - f[3]))
                     continue
                 if f[0] in ("le", "eq") and v in f[1].terms:
                     out.append((f[0], f[1].subst(v, repl)))
@@ -417,7 +443,7 @@ class State:
                         for v in f[1].terms:
                             if v[0] == cell and v[1][:n] == path:
                                 vs.add(v)
-        self.kill_vars(vs, keep_bounds=(cell[0] == "H"))
+        self.kill_vars(vs, keep_bounds=("all" if cell[0] == "H" else True))
         self.kill_guards(cell, path, whole)
 
     def kill_cell(self, cell):
@@ -425,7 +451,7 @@ class State:
         self.cells.pop(cell, None)
 
     # -- constraint addition with bound propagation ------------------------------------
-    def add_le(self, lf):
+    def add_le(self, lf, force=False):
         if lf.is_const():
             if lf.const > 0:
                 raise Infeasible()
@@ -434,7 +460,7 @@ class State:
         if lo is not None and lo > 0:
             raise Infeasible()
         hi = sup(lf, self.bounds_of)
-        if hi is not None and hi <= 0 and len(lf.terms) > 1:
+        if hi is not None and hi <= 0 and len(lf.terms) > 1 and not force:
             return  # implied by intervals
         if len(lf.terms) > 1:
             self.cons.add_le(lf)
@@ -503,6 +529,48 @@ class State:
         return changed_vars
 
 
+def _eliminate_in_facts(fs, under):
+    """inside one guard's fact set, re-express facts over dying variables through the set's own equalities"""
+    dying = set()
+    for f in fs:
+        if f[0] == "iv" and under(f[1]):
+            dying.add(f[1])
+        elif f[0] in ("le", "eq"):
+            for v in f[1].terms:
+                if under(v):
+                    dying.add(v)
+    if not dying:
+        return fs
+    fs = set(fs)
+    for v in dying:
+        sol = None
+        src = None
+        for f in fs:
+            if f[0] == "eq" and f[1].terms.get(v) in (1, -1) and not any(x in dying for x in f[1].terms if x != v):
+                c = f[1].terms[v]
+                rest = LinForm({x: k for x, k in f[1].terms.items() if x != v}, f[1].const)
+                sol = (-rest) if c == 1 else rest
+                src = f
+                break
+        if sol is None:
+            continue
+        out = set()
+        for f in fs:
+            if f is src:
+                continue
+            if f[0] == "iv" and f[1] == v:
+                if f[2] > -(1 << 62):
+                    out.add(("le", LinForm.constant(f[2]) - sol))
+                if f[3] < (1 << 62):
+                    out.add(("le", sol - f[3]))
+            elif f[0] in ("le", "eq") and v in f[1].terms:
+                out.add((f[0], f[1].subst(v, sol)))
+            else:
+                out.add(f)
+        fs = out
+    return frozenset(fs)
+
+
 def _ceil_div(a, b):
     return -((-a) // b)
 
@@ -540,7 +608,7 @@ def _def_mentions(d, vs):
 # ----------------------------------------------------------------------------
 # join / widen / order on states
 # ----------------------------------------------------------------------------
-def join_states(a, b, widen=False, thresholds=(), templates=False):
+def join_states(a, b, widen=False, thresholds=(), templates=False, template_vars=()):
     out = State()
     out.tag = a.tag
     keys = set(a.cells) & set(b.cells)
@@ -569,9 +637,13 @@ def join_states(a, b, widen=False, thresholds=(), templates=False):
         for x in a.cons.le:
             if x in b.cons.le or b.cons.entails_le(x, b.bounds_of):
                 c.le.add(x)
+        if templates:
+            for x in _heap_templates(a, b, template_vars):
+                if x not in c.le and a.cons.entails_le(x, a.bounds_of) and b.cons.entails_le(x, b.bounds_of):
+                    c.le.add(x)
         out.cons = c
     else:
-        out.cons = join_cons(a.cons, b.cons, a.bounds_of, b.bounds_of, _heap_templates(a, b) if templates else ())
+        out.cons = join_cons(a.cons, b.cons, a.bounds_of, b.bounds_of, _heap_templates(a, b, template_vars) if templates else ())
         # constraints over the payload of an enum variant that the other state does not have hold there vacuously
         for (x, y) in ((a, b), (b, a)):
             for c in x.cons.le:
@@ -592,6 +664,7 @@ def join_states(a, b, widen=False, thresholds=(), templates=False):
             g[k] = None
     out.ghost = g
     out.pending = a.pending | b.pending
+    out.prune()
     if not widen:
         out.guards = join_guards(a, b, out)
     else:
@@ -599,13 +672,13 @@ def join_states(a, b, widen=False, thresholds=(), templates=False):
     return out
 
 
-def _heap_templates(a, b):
+def _heap_templates(a, b, extra_vars=()):
     """difference constraints x - y <= 0 between heap scalars that are related in both states:
     makes facts that are only *implied* on each side (e.g. filled <= cap) explicit so the join keeps them"""
     va = {v for v in a.cons.all_vars() if v[0][0] == "H"}
     vb = {v for v in b.cons.all_vars() if v[0][0] == "H"}
     vs = sorted(va | vb, key=repr)
-    if len(vs) < 2 or len(vs) > 8:
+    if len(vs) > 8:
         vs = vs[:8]
     out = []
     for x in vs:
@@ -613,6 +686,11 @@ def _heap_templates(a, b):
             if x == y or x[0] != y[0]:
                 continue
             out.append(LinForm({x: 1, y: -1}, 0))
+    ev = [v for v in extra_vars if a.leaf(v) is not None and b.leaf(v) is not None][:10]
+    for x in ev:
+        for y in ev:
+            if x != y:
+                out.append(LinForm({x: 1, y: -1}, 0))
     return out
 
 
@@ -696,7 +774,7 @@ def join_guards(a, b, out):
         va, vb = a.cells[cell], b.cells[cell]
         if va is vb:
             continue
-        if cell[0] not in ("L",):
+        if cell[0] not in ("L", "H"):
             continue
         da = {p: (k, v) for p, k, v in _discriminators(va)}
         db = {p: (k, v) for p, k, v in _discriminators(vb)}
